@@ -103,8 +103,17 @@ func newCall(parent context.Context, st Step) *call {
 		cl.conn = 1
 	}
 	md := mdOf(st.Md)
-	md.Set(tokenKey, fmt.Sprintf("%d", st.C))
-	ctx := metadata.NewOutgoingContext(parent, md)
+	ctx := parent
+	if anon != nil {
+		// no call token: with no scripted metadata either, the caller's context carries no outgoing metadata at all
+		if len(md) > 0 {
+			ctx = metadata.NewOutgoingContext(parent, md)
+		}
+		anon.started(st.C)
+	} else {
+		md.Set(tokenKey, fmt.Sprintf("%d", st.C))
+		ctx = metadata.NewOutgoingContext(parent, md)
+	}
 	if st.To != 0 {
 		cl.ctx, cl.cancel = context.WithTimeout(ctx, time.Duration(st.To)*time.Millisecond)
 	} else {
